@@ -21,11 +21,17 @@ from curies.discovery import discover  # noqa: E402
 URIS = [
     "h:/a/1", "h:/a/2", "h:/a/b_1", "h:/a/b_2", "h:/a#x", "h:/a#y", "h:/c/d#e_1", "h:/a/", "h:/a/x-y", "h:/a/b_x-y",
     "nodelim", "", "h:/é/1", "h:/a/é", "k:/z_1", "k:/z_2", "k:/z_3", "h:/a/1_", "h:/a/b_1#", "h:/a/b_3",
+    "h:/m::1", "h:/m::2", "h:/p%3A1", "h:/p%3A2",
 ]
-DELIMS = [None, ["/"], ["_", "/"]]
+DELIMS = [None, ["/"], ["_", "/"], ["::", "/"], ["%3A"]]   # incl. multi-character delimiters
 CUTOFFS = [None, 0, 1, 2, 3]
 METAPREFIXES = ["ns", "q"]
-EXISTING = [None, [mrec("known", "h:/a/b_", [], ["k:/"]), mrec("other", "h:/c/")]]
+EXISTING = [
+    None,
+    [mrec("known", "h:/a/b_", [], ["k:/"]), mrec("other", "h:/c/")],
+    # URI prefixes that do not end at a delimiter: recognised and unrecognised URIs share a candidate prefix
+    [mrec("k2", "h:/a/b_1"), mrec("k3", "h:/a/2", [], ["h:/m::1"])],
+]
 DEFAULT_DELIMS = ("#", "/", "_")
 
 
@@ -159,9 +165,9 @@ def replay(case):
 def describe(tier):
     return {
         "level": "model_checking",
-        "rule": f"20-string URI alphabet (nested prefixes, '#', '/', '_' tails, non-alphanumeric and empty tails, delimiter-free, empty, non-ASCII); every "
-        f"set of <=3 URIs x every sequence of length <= {4 if tier == 'thorough' else 3} with exactly that support (all orders and repetitions) x 3 delimiter "
-        "lists x cutoff in {None,0,1,2,3} x 2 metaprefixes x with/without a pre-existing converter; every 4-element set in every order with "
+        "rule": f"24-string URI alphabet (nested prefixes, '#', '/', '_' tails, non-alphanumeric and empty tails, delimiter-free, empty, non-ASCII); every "
+        f"set of <=3 URIs x every sequence of length <= {4 if tier == 'thorough' else 3} with exactly that support (all orders and repetitions) x 5 delimiter "
+        "lists (two with multi-character delimiters) x cutoff in {None,0,1,2,3} x 2 metaprefixes x without / with one of two pre-existing converters; every 4-element set in every order with "
         f"{'the full' if tier == 'thorough' else 'two'} parameter combination(s); result compared with the reference grouping of the SET; "
         "distinct_nontrivial = (set, parameters) cases with >= 2 discovered prefixes and >= 2 sequences",
         "bounds": {"set_size": 4, "sequence_len": 4 if tier == "thorough" else 3, "alphabet": len(URIS)},
